@@ -57,7 +57,8 @@ debug = false
             continue
         text_ = msg.get('message', '')
         line = None
-        for sp in msg.get('spans', []):
+        # (the primary span first: secondary labels may point into other cases - "a function of that name is defined here")
+        for sp in sorted(msg.get('spans', []), key=lambda sp: not sp.get('is_primary')):
             if sp.get('file_name', '').endswith('main.rs'):
                 line = sp['line_start']
                 # macro expansions point into the derive line
